@@ -171,6 +171,11 @@ def canon(x):
         if len(x) == 3 and x[0] == 'lit' and isinstance(x[2], list) and x[2] and x[2][0] == 'f':
             n, d = int(x[2][1]), int(x[2][2])
             return [S('lit'), '<float>', [S('f'), '%.11e' % (n / d)]]
+        if len(x) in (3, 4) and x[0] == 'lit' and isinstance(x[-1], list) and len(x[-1]) == 2 and x[-1][0] == 's' \
+                and x[-1][1] == '-0.0':
+            # `str()` of an IEEE negative zero (`str(-0.0)`, `str(0.0 * -1)`): the model's numbers are rationals and have
+            # one zero (DESIGN 4, "modelled, not verified": floating point); compared as the string of zero
+            return list(x[:-2]) + ['0.0', [S('s'), '0.0']]
         if len(x) == 3 and x[0] == 'q':
             # time bounds: exact when the decimal is short (an amount of s, or of ms that Python's correctly rounded
             # division by 1000.0 represents by the same shortest decimal); a value that needs 16-17 digits (one ulp off)
